@@ -268,7 +268,14 @@ func transferFacts(fd *ast.FuncDecl, f *facts) {
 			names[n.Name] = true
 		}
 	}
-	if !names["src"] || !names["dst"] || fd.Type.Results == nil || !strings.Contains(src(fd.Type.Results), "destFile string") {
+	if fd.Type.Results != nil {
+		for _, p := range fd.Type.Results.List {
+			for _, n := range p.Names {
+				names["result:"+n.Name] = true
+			}
+		}
+	}
+	if !names["src"] || !names["dst"] || !names["result:destFile"] || !names["result:err"] {
 		die(fd.Pos(), "TransferFiles: parameters src / dst and result destFile expected")
 	}
 	i1, i2 := -1, -1
